@@ -2462,6 +2462,14 @@ static int next_token(struct scanner_s *scanner) {
             if (result == CIF_EOF) {
                 ttype = END;
                 result = CIF_OK;
+
+                /* a last line without a terminator is subject to the line length limit all the same */
+                if (POSN_COLUMN(scanner) > CIF_LINE_LENGTH) {
+                    result = scanner->error_callback(CIF_OVERLENGTH_LINE, scanner->line, scanner->column,
+                            scanner->next_char, 0, scanner->user_data);
+                    /* recover by accepting it as-is; report it only once */
+                    scanner->column = 0;
+                }
             }
 
             /* break out of the scan loop: */
